@@ -130,3 +130,94 @@ def contradictory(tr, pc):
         if other in seen and ({"<": "<=", "<=": "<"}[op] in seen[other]):
             return True
     return False
+
+
+class FieldTranslator:
+    """Same translation into a sparse fraction field QQ(gens) (sympy.polys.fields) -- much faster than expression-level
+    `cancel` on large inputs.  Uninterpreted applications take their symbol from a fixed pool of spare generators, keyed by
+    the canonical (reduced) field elements of their arguments."""
+
+    def __init__(self, names, pool=24):
+        from sympy.polys.domains import QQ
+        from sympy.polys.fields import field
+        self.names = list(names)
+        self.pool = [f"app{k}" for k in range(pool)]
+        res = field(self.names + self.pool, QQ)
+        self.K = res[0]
+        self.gen = dict(zip(self.names + self.pool, res[1:]))
+        self.apps = {}
+        self.cache = {}
+
+    def tr(self, t):
+        k = t.get_id()
+        if k not in self.cache:
+            self.cache[k] = self._tr(t)
+        return self.cache[k]
+
+    def _tr(self, t):
+        from sympy import Rational
+        K = self.K
+        if z3.is_rational_value(t):
+            return K(Rational(t.numerator_as_long(), t.denominator_as_long()))
+        if z3.is_int_value(t):
+            return K(t.as_long())
+        if not z3.is_app(t):
+            raise ValueError(f"not an application: {t}")
+        d = t.decl()
+        kind = d.kind()
+        ch = t.children()
+        if kind == z3.Z3_OP_UNINTERPRETED:
+            if not ch:
+                return self.gen[d.name()]
+            key = (d.name(), tuple(str(self.tr(c)) for c in ch))
+            if key not in self.apps:
+                if len(self.apps) >= len(self.pool):
+                    raise ValueError("pool of application symbols exhausted")
+                self.apps[key] = self.gen[self.pool[len(self.apps)]]
+            return self.apps[key]
+        if kind == z3.Z3_OP_ADD:
+            r = self.tr(ch[0])
+            for c in ch[1:]:
+                r = r + self.tr(c)
+            return r
+        if kind == z3.Z3_OP_MUL:
+            r = self.tr(ch[0])
+            for c in ch[1:]:
+                r = r * self.tr(c)
+            return r
+        if kind == z3.Z3_OP_SUB:
+            r = self.tr(ch[0])
+            for c in ch[1:]:
+                r = r - self.tr(c)
+            return r
+        if kind == z3.Z3_OP_UMINUS:
+            return -self.tr(ch[0])
+        if kind == z3.Z3_OP_DIV:
+            return self.tr(ch[0]) / self.tr(ch[1])
+        if kind == z3.Z3_OP_POWER:
+            e = ch[1]
+            if not (z3.is_rational_value(e) and e.denominator_as_long() == 1) and not z3.is_int_value(e):
+                raise ValueError("non-integer power")
+            n = e.numerator_as_long() if z3.is_rational_value(e) else e.as_long()
+            return self.tr(ch[0]) ** n
+        if kind == z3.Z3_OP_TO_REAL:
+            return self.tr(ch[0])
+        raise ValueError(f"operator {d.name()} outside the rational-function fragment")
+
+    def identical(self, t1, t2):
+        return self.tr(t1) == self.tr(t2)
+
+
+def consts_of(terms):
+    """Names of the real constants occurring in the z3 terms."""
+    out, seen, todo = [], set(), list(terms)
+    while todo:
+        x = todo.pop()
+        if x.get_id() in seen:
+            continue
+        seen.add(x.get_id())
+        if z3.is_app(x) and x.num_args() == 0 and x.decl().kind() == z3.Z3_OP_UNINTERPRETED:
+            if x.decl().name() not in out:
+                out.append(x.decl().name())
+        todo.extend(x.children())
+    return out
